@@ -99,7 +99,28 @@ def parse_rules(ck, pr, ct):
     calls = ct.calls(CF + "::parseRules")
     ck.require(len(calls) == 1, "constructor does not call parseRules exactly once")
     arg = skip_copies(calls[0]["args"][0])
+    cuts = []
     if arg.get("k") == "ref" and arg.get("dk") == "local":
+        for r_ in refs_to(ct, arg["decl"]):
+            asg_, rhs_ = assignment_target(ct, r_)
+            if asg_ is not None and isinstance(rhs_, dict) and any(is_call(x, ("QString::mid", "QString::left", "QString::right", "QString::chopped", "QString::section", "QString::sliced")) and
+                                                                   is_ref_to(skip_copies(x.get("obj") or {}), arg["decl"]) for x in walk(rhs_)):
+                cuts.append((asg_, rhs_))
+        cuts += [(c_, c_) for c_ in ct.calls() if c_.get("ck") == "member" and is_ref_to(skip_copies(c_.get("obj") or {}), arg["decl"]) and name_is(c_.get("callee"), ("truncate", "chop", "remove", "resize"))]
+    if cuts:
+        # part of the rule text is thrown away before it is parsed ("nothing in front of the last unconditional rule can decide"). That is only right when
+        # the line that justifies the cut is one the parser accepts: the pre-scan must use the parser's own grammar for the value and the line end
+        pats = [const_str(a_) for c_ in ct.all_nodes() if c_.get("k") == "construct" and strip_tmpl(c_.get("class") or "") == "QRegularExpression" for a_ in c_.get("args", [])[:1] if const_str(a_) is not None]
+        for g_ in F.globals.values():
+            if isinstance(g_, dict) and g_.get("staticlocal") and isinstance(g_.get("init"), dict) and "categoryfilter" in (g_.get("file") or "") and "QRegularExpression" in (g_.get("type") or ""):
+                pats += [const_str(x) for x in walk(g_["init"]) if const_str(x) is not None]
+        full = [p_ for p_ in pats if p_ and "(true|false)" in p_ and (p_.rstrip().endswith("$") or p_.rstrip().endswith("\\z"))]
+        partial = [p_ for p_ in pats if p_ and p_ not in full and p_ != lit]
+        ck.ob("C15-O5", sitestr(ct, cuts[0][0]), False if (partial and not full) else None,
+              "the constructor cuts the rule text (%s) at a line found with %r, which does not check the value or the end of the line as the parser does: a malformed line that merely starts like that "
+              "(\"*=on\") is ignored by the parser, but every rule in front of it has already been thrown away" % (describe(cuts[0][1])[:40], partial[0]) if (partial and not full) else
+              "the constructor cuts the rule text (%s) before parsing it" % describe(cuts[0][1])[:40], key="CategoryFilter|text-cut")
+    elif arg.get("k") == "ref" and arg.get("dk") == "local":
         hist = var_history(ct, gc, arg["decl"])
         kinds = [(e[0], describe(e[1])[:60]) for e in hist]
         init_ok = hist and hist[0][0] == "init" and is_ref_to(skip_copies(hist[0][2]), ct.params[0]["decl"])
